@@ -43,9 +43,24 @@ def rbytes(r, w):
     return b
 
 
+_last_parent = [None]
+
+
 def const(r, w=None):
+    free = w is None
     if w is None:
         w = rwidth(r)
+    k = r.random()
+    if k < 0.10 and w <= 64:
+        # a constant that shares its bytes and spare capacity with a wider one (Const.WithWidth of the parent),
+        # as the values handed out of the emulator's register file do; the parent has non-zero upper bytes
+        extra = r.choice([1, 2, 4, 4, 6, 8, 16])
+        parent = rbytes(r, w) + bytes(r.randint(1, 255) for _ in range(extra))
+        _last_parent[0] = parent.hex()
+        return "cw:%s:%d" % (parent.hex(), w)
+    if free and k < 0.14 and _last_parent[0] is not None:
+        # ... and the parent itself is used again later in the same line (interned: the same object)
+        return "c:" + _last_parent[0]
     return "c:" + rbytes(r, w).hex()
 
 
@@ -287,6 +302,10 @@ def g_gadget(r, const_only=None):
         return "%s signextend %d %s c:%s" % (op, w, a(mw()), bit.to_bytes(bw, "little").hex())
     if name == "rsha":
         s = r.choice([0, 1, 7, 8, 8 * w - 1, 8 * w, 8 * w + 1, r.randrange(8 * w + 2)])
+        if r.random() < 0.12:
+            # shift amounts far beyond the width (byte counts that wrap in 8 or 32 bits)
+            s = r.choice([255, 256, 2047, 2048, 2048 + r.randint(0, 8 * w), 2 ** 16, 2 ** 16 + 3, 2 ** 32, 2 ** 32 + 8,
+                          2 ** 35, 2 ** 64 - 1, 2 ** 64, 2 ** 64 + 8])
         sw = max(1, (s.bit_length() + 7) // 8)
         sh = "c:" + s.to_bytes(sw, "little").hex() if r.random() < 0.8 else a(w)
         return "%s rsha %d %s %s" % (op, w, a(), sh)
